@@ -15,6 +15,27 @@ use crate::cli::{run_tool, scratch_dir, write_zst};
 use crate::model::AbsModel;
 use crate::util::{catch, hex, hexs, unhexs, Rng};
 
+/// long inputs are shown by their length and their beginning
+fn clip(s: &str) -> String {
+    if s.chars().count() <= 300 {
+        format!("{s:?}")
+    } else {
+        format!("{:?}… ({} bytes)", s.chars().take(120).collect::<String>(), s.len())
+    }
+}
+
+/// two long outputs are shown around their first difference
+fn clip_diff(a: &str, b: &str) -> (String, String) {
+    if a.len() <= 600 && b.len() <= 600 {
+        return (format!("{a:?}"), format!("{b:?}"));
+    }
+    let (ca, cb): (Vec<char>, Vec<char>) = (a.chars().collect(), b.chars().collect());
+    let k = ca.iter().zip(&cb).position(|(x, y)| x != y).unwrap_or(ca.len().min(cb.len()));
+    let from = k.saturating_sub(60);
+    let show = |c: &Vec<char>| format!("…{:?}… (character {k} of {})", c.iter().skip(from).take(160).collect::<String>(), c.len());
+    (show(&ca), show(&cb))
+}
+
 fn lines_of(stdin: &str) -> Vec<String> {
     // std::io::BufRead::lines
     let mut v: Vec<String> = stdin.split('\n').map(|l| l.strip_suffix('\r').unwrap_or(l).to_string()).collect();
@@ -229,14 +250,14 @@ pub fn run(toks: &[&str], fails: &mut Vec<(String, String)>) -> String {
     if !eval {
         if c20 {
             match catch(|| expected_predict(&m, flags, ws, &stdin)).unwrap_or_else(|e| {
-                fails.push(("C20".into(), format!("the library pipeline itself panicked for predict {fl} on {stdin:?}: {e}")));
+                fails.push(("C20".into(), format!("the library pipeline itself panicked for predict {fl} on {}: {e}", clip(&stdin))));
                 Err(e)
             }) {
                 Ok(exp) => {
                     if code != 0 {
-                        fails.push(("C20".into(), format!("predict {fl} exited with {code} on input {stdin:?}: {}", o.stderr.lines().rev().find(|l| l.contains("panicked") || l.contains("Error")).unwrap_or(""))));
+                        fails.push(("C20".into(), format!("predict {fl} exited with {code} on input {}: {}", clip(&stdin), o.stderr.lines().rev().find(|l| l.contains("panicked") || l.contains("Error")).unwrap_or(""))));
                     } else if stdout != exp {
-                        fails.push(("C20".into(), format!("predict {fl} on {stdin:?} printed {stdout:?}, the library pipeline gives {exp:?}")));
+                        fails.push(("C20".into(), format!("predict {fl} on {} printed {}, the library pipeline gives {}", clip(&stdin), clip_diff(&stdout, &exp).0, clip_diff(&stdout, &exp).1)));
                     }
                 }
                 Err(_) => {}
@@ -247,7 +268,7 @@ pub fn run(toks: &[&str], fails: &mut Vec<(String, String)>) -> String {
         match catch(|| expected_evaluate(&m, flags, ws, &stdin)).unwrap_or_else(Err) {
             Ok((text, counts)) => {
                 if c20 && (code != 0 || stdout != text) {
-                    fails.push(("C20".into(), format!("evaluate {fl} on {stdin:?} printed {stdout:?} (exit {code}), the library's predictions give {text:?}")));
+                    fails.push(("C20".into(), format!("evaluate {fl} on {} printed {stdout:?} (exit {code}), the library's predictions give {text:?}", clip(&stdin))));
                 }
                 if code == 0 && stdout == text {
                     format!("0:{counts}")
@@ -339,6 +360,19 @@ pub fn gen(out: &mut dyn std::io::Write, thorough: bool, seed: u64) {
                 s.push(c);
             }
             tl.push(s);
+        }
+        // a large stream (oracle-only): > 128 KiB of multi-byte lines, so that every internal read block is crossed
+        if i == 1 {
+            let mut big = String::new();
+            let mut k = 0usize;
+            while big.len() < 140_000 {
+                big.push_str(&gen_text_tags(&mut r, &m, &alpha, 9));
+                big.push_str(["\n", "\n", "\r\n"][k % 3]);
+                k += 1;
+            }
+            for flags in ["", "n", "ts"] {
+                writeln!(out, "BIG CP {flags}:- {mt} {} - c20", hexs(&big)).unwrap();
+            }
         }
         // many lines through one run of the tool (the sentence objects are reused for every line), once per run of the generator
         if i == 0 {
